@@ -121,8 +121,33 @@ def _transport(scn, variant, cut):
     return tr
 
 
+def deliverable_ends(scn):
+    """End offsets of the frames of a clean wire that the reader's configuration makes deliverable."""
+    from sim import wire as W  # pylint: disable=import-outside-toplevel
+
+    cfg = scn["config"]
+    ends, off = [], 0
+    for f in scn["frames"]:
+        data = link.frame_bytes(f)
+        off += len(data)
+        if not W.PROTO_BIT.get(f["kind"], 0) & cfg.get("protfilter", 7):
+            continue
+        if cfg.get("parsing", True):
+            verdict = common.static_parse(f["kind"], data, cfg)
+            if verdict[0] == "foreign":
+                return None
+            if verdict[0] != "ok":
+                continue
+        ends.append(off)
+    return ends
+
+
 def _base(scn, wire, variant):
     out = run_reader(wire, scn["config"], _transport(scn, variant, None))
+    if out.exc and not out.hang and out.exc[0] in common.proto_error_names():
+        # k = len(S) is a cut position too: a *protocol* error escaping with errors ignored or logged is
+        # this property's business ("ends without raising"); a foreign class is C08's and skipped
+        return ("PROTO_RAISED", out.exc)
     if out.hang or out.exc:
         return None
     offs = embed_offsets(wire, out.raws())
@@ -145,7 +170,16 @@ def _judge_cut(scn, wire, variant, k, base_items, base_ends, res=None):
         )
     if embed_offsets(wire[:k], out.raws()) is None:
         return ("raw_outside_cut", f"k={k} {variant}: a delivered raw does not lie inside S[:k]")
-    if scn.get("clean") and base_ends is not None:
+    if scn.get("clean") and scn.get("deliverable_ends") is not None:
+        # frame boundaries are known by construction: every frame that lies wholly before the cut, passes
+        # the mask and (when parsing) is accepted by its own protocol parser must have been delivered
+        need = sum(1 for e in scn["deliverable_ends"] if e <= k)
+        if len(out.items) < need:
+            return (
+                "complete_frame_before_cut_not_delivered",
+                f"k={k} {variant}: {need} deliverable frames lie wholly before the cut, only {len(out.items)} items delivered",
+            )
+    elif scn.get("clean") and base_ends is not None:
         need = sum(1 for e in base_ends if e <= k)
         if len(out.items) < need:
             return (
@@ -162,6 +196,10 @@ def execute(scn):
     base = _base(scn, wire, variant)
     if base is None:
         return None
+    if base[0] == "PROTO_RAISED":
+        return ("cut_run_raises", f"k={len(wire)} (uncut) {variant}: {base[1]}")
+    if scn.get("clean") and "deliverable_ends" not in scn:
+        scn = dict(scn, deliverable_ends=deliverable_ends(scn))
     ks = [scn["cut"]] if scn.get("cut") is not None else range(len(wire) + 1)
     for k in ks:
         if k > len(wire):
@@ -173,18 +211,31 @@ def execute(scn):
 
 
 def shrink(scn, fails):
-    """Generic shrink with the cut point re-searched after every structural change."""
+    """Generic shrink with the cut point re-searched after every structural change (bounded effort)."""
     clause = scn["clause"]
+    wire0 = link.wire_of(scn["frames"])
+    if len(wire0) > 1500:
+        return scn  # cutting a 12 KiB wire at every byte for every candidate costs minutes: report as found
+
+    def cut_candidates(cand):
+        w = link.wire_of(cand["frames"])
+        if len(w) <= 160:
+            return range(len(w) + 1)
+        pts = set(sched.interesting_offsets(sched.spans_of(cand["frames"])))
+        pts.update(range(0, len(w) + 1, max(1, len(w) // 40)))
+        return sorted(p for p in pts if 0 <= p <= len(w))
 
     def fails_any_k(cand):
-        c = dict(cand)
-        c["cut"] = None
-        v = execute(c)
-        return v is not None and v[0] == clause
+        base = dict(cand)
+        for k in cut_candidates(cand):
+            base["cut"] = k
+            v = execute(base)
+            if v is not None and v[0] == clause:
+                return True
+        return False
 
-    small = minimise.shrink_generic(scn, fails_any_k, max_tests=400)
-    wire = link.wire_of(small["frames"])
-    for k in range(len(wire) + 1):
+    small = minimise.shrink_generic(scn, fails_any_k, max_tests=60)
+    for k in cut_candidates(small):
         c = copy.deepcopy(small)
         c["cut"] = k
         if fails(c):
@@ -207,6 +258,8 @@ def run_unit(unit) -> UnitResult:
     c.hit(f"validate_{cfg['validate']}")
     if scn["cuts"] is not None:
         c.hit("sampled_long_wires")
+    if scn["clean"]:
+        scn["deliverable_ends"] = deliverable_ends(scn)
     cuts = scn["cuts"] if scn["cuts"] is not None else range(len(wire) + 1)
     # a wire whose frames are expensive to parse (group counts of 65535) is cut at a thinned-out set of
     # points: every structurally interesting offset plus every stride-th byte; the cost is measured in
@@ -242,6 +295,14 @@ def run_unit(unit) -> UnitResult:
         if base is None:
             res.skipped_base_failed += 1
             continue
+        if base[0] == "PROTO_RAISED":
+            if not found:
+                found = True
+                bad = {key: scn[key] for key in ("seed", "config", "frames", "socket", "clean")}
+                bad["variant"], bad["cut"] = variant, len(wire)
+                bad["clause"], bad["detail"] = "cut_run_raises", f"k={len(wire)} (uncut) {variant}: {base[1]}"
+                res.violations.append(bad)
+            continue
         for k in cuts:
             v = _judge_cut(scn, wire, variant, k, *base, res=res)
             res.evaluations += 1
@@ -251,7 +312,7 @@ def run_unit(unit) -> UnitResult:
             res.log((sorted(cfg.items()), wire, k, variant), bool(base[0]) and 0 < k < len(wire))
             if v is not None and not found:
                 found = True
-                bad = {key: scn[key] for key in ("seed", "config", "frames", "socket", "clean")}
+                bad = {key: scn[key] for key in ("seed", "config", "frames", "socket", "clean")}  # deliverable_ends is re-derived at replay
                 bad["variant"], bad["cut"] = variant, k
                 bad["clause"], bad["detail"] = v
                 res.violations.append(bad)
